@@ -23,7 +23,7 @@ Recipe pool_recipe(uint64_t master, uint64_t idx, bool many) {
   r.sig = (int)g.below(6); if (g.chance(0.1)) r.sig = 4;
   r.seed = g.next() % 100000; r.ncomm = (int)g.below(4);
   if (g.chance(0.12) && r.n > 6000) r.cut = 1 + (int)g.below(30);
-  if (!r.cut && r.n > 4000 && g.chance(0.10)) { r.trim = 1 + (int)g.below(300); r.tk = 2 + (int)g.below(5); }
+  if (!r.cut && r.n > 4000 && g.chance(0.10)) { r.trim = 1 + (int)g.below(300); r.tk = 2; }   // two packets per page: the decoder can only trim a short first page correctly while nothing of it has been returned yet (DESIGN 13.3)
   if (r.ch >= 2 && r.ch <= 8 && g.chance(0.15)) r.mute = 1 + (int)g.below((1u << r.ch) - 2);
   return r;
 }
@@ -59,6 +59,7 @@ void build_stream(const Plan &plan, StreamRef &sr) {
   for (auto &p : sr.ps.pages) if (p.link >= 0 && !p.header && p.granule >= 0) sr.boundaries.push_back(sr.start[p.link] + std::max<int64_t>(0, std::min<int64_t>(p.granule - sr.goff[p.link], sr.ps.links[p.link]->len)));
   std::sort(sr.boundaries.begin(), sr.boundaries.end());
   sr.bytes = sr.ps.bytes;
+  for (size_t i = 0; i < sr.ps.serials.size(); i++) for (size_t j = 0; j < i; j++) if (sr.ps.serials[i] == sr.ps.serials[j]) { if (!sr.damaged) g_stats.inc("fault.page.serial_reused_by_later_link"); sr.damaged = true; }
   if (plan.count("pfault")) { sr.damaged = true; apply_pfaults(plan, sr); }
 }
 
